@@ -221,14 +221,11 @@ class UPSequentialSimulator(Engine, SequentialSimulatorMixin):
             an `ActionInstance` is given instead.
         :return: Whether or not the action is applicable in the given `state`.
         """
-        try:
-            _, reason = self.get_unsatisfied_conditions(
-                state, action, parameters, early_termination=True, full_check=True
-            )
-            is_applicable = reason is None
-        except (UPInvalidActionError, UPStateMissingFluentError):
-            is_applicable = False
-        return is_applicable
+        # The verdict must be exactly the one of apply: the separate "full check" of
+        # get_unsatisfied_conditions re-implements the effects evaluation only partially
+        # (it skips Boolean conditional effects and most unconditional ones, so it misses
+        # undefined values read by them and can fail on effects that do not fire).
+        return self._apply(state, action, parameters) is not None
 
     def _apply(
         self,
